@@ -119,6 +119,13 @@ def run(ck):
         for cwd, o in outs.items():
             if o != alone:
                 ck.report("cwd-dependent", "the report depends on the working directory", dict(cwd=cwd, alone=alone[:300], got=o[:300]))
+        # ... also when the file is no longer where it was compiled (a moved checkout, a binary run elsewhere) while the working
+        # directory happens to contain a file under the compiler's relative path
+        gone = req.replace(hexs(scratch), hexs("/nonexistent/checkout"), 1)
+        gone_outs = {cwd: ck.rt_batch([gone], cwd=cwd)[0] for cwd in ("/", scratch, "/tmp")}
+        if len(set(gone_outs.values())) != 1:
+            ck.report("cwd-dependent:moved-checkout", "the report depends on the working directory when the source is no longer at its compile-time location",
+                      dict(outputs={k: v[:300] for k, v in gone_outs.items()}))
         # the process environment: nothing in it but NO_COLOR (for the colour decision) may change the report - in particular not the
         # variables cargo exports to the processes it starts, which name the RUNNING package, not the one the assertion was compiled in
         other = os.path.join(scratch, "otherpkg")
